@@ -25,6 +25,89 @@ def impl_of(facts, ty, name):
     return None
 
 
+def _units(facts, p):
+    """p and the file-local free/associated helper functions it calls (two levels), with their call sites"""
+    file = facts.items[p]["file"]
+    units, sites, work = [p], {}, [p]
+    while work:
+        g = work.pop()
+        for x in walk(facts.hir[g]):
+            f = callee(x)
+            if f and f.get("local") and x.get("k") in ("Call", "MCall"):
+                d = f.get("inst") if f.get("inst") in facts.hir else f["def"]
+                it = facts.items.get(d)
+                if d in facts.hir and it and it.get("file") == file and not it.get("impl_trait") and d != p:
+                    sites.setdefault(d, []).append((g, x))
+                    if d not in units and len(units) < 6:
+                        units.append(d)
+                        work.append(d)
+    return units, sites
+
+
+def _scan_ok(facts, p, want_size):
+    units, sites = _units(facts, p)
+    defs = {g: Defs(facts.hir[g]) for g in units}
+    trees = {g: Tree(facts.hir[g]) for g in units}
+
+    def names_of(e, g, depth=0):
+        """names of callees / paths in the transitive definition closure of e, crossing helper parameters to the
+        arguments at the helper's call sites"""
+        out = set()
+        it = facts.items[g]
+        plids = {q["pat"]["lid"]: j for j, q in enumerate(it["params"]) if q["pat"].get("k") == "PBind"}
+        for y in defs[g].closure(e):
+            if y.get("k") in ("Path", "MCall", "Call"):
+                nm = y.get("name") or (callee(y) or {}).get("name")
+                if nm:
+                    out.add(nm)
+            if y.get("k") == "Index":
+                out.add("<index>")
+            if y.get("k") == "Path" and y.get("res") == "local" and y["lid"] in plids and depth < 3:
+                j = plids[y["lid"]]
+                for caller, call in sites.get(g, []):
+                    args = ([call["recv"]] if call["k"] == "MCall" else []) + call["args"]
+                    if j < len(args):
+                        out |= names_of(args[j], caller, depth + 1)
+        return out
+
+    ncmp = 0
+    detail = ""
+    for g in units:
+        body = facts.hir[g]
+        for x in walk(body):
+            if x.get("k") != "If":
+                continue
+            c = strip(x["c"])
+            if c.get("k") != "Bin" or c.get("op") != ">=":
+                continue
+            lhs_data = any((callee(y) or {}).get("name") == "data_at" for y in walk(c["a"])) or \
+                any(y.get("k") == "Index" and "u64" in facts.ty(y["e"]) + facts.ty_adj(y["e"]) for y in walk(c["a"]))
+            refuses = any(y.get("k") == "Ret" and strip(y.get("e") or {}).get("v") == "false" for y in walk(x["th"]))
+            if not (lhs_data and refuses):
+                continue
+            # a helper's refusal must be propagated by every caller
+            if g != p:
+                dropped = [1 for caller, call in sites.get(g, []) if (trees[caller].up(call) or {}).get("k") == "Semi"]
+                if dropped:
+                    detail = "the result of the scanning helper is discarded"
+                    continue
+            ncmp += 1
+            fors = [a for a in trees[g].ancestors(x) if a.get("k") == "For"]
+            bnames = [names_of(f["iter"], g) for f in fors]
+            has_n = any("poly_modulus_degree" in b_ for b_ in bnames)
+            comp = [f for f, b_ in zip(fors, bnames) if "coeff_modulus" in b_ and "poly_modulus_degree" not in b_]
+            has_s = any("size" in b_ for b_ in bnames)
+            modulus_from_j = "<index>" in names_of(c["b"], g) and "coeff_modulus" in names_of(c["b"], g)
+            if not (has_n and comp and modulus_from_j and (has_s or not want_size)):
+                continue
+            stride = any(y.get("k") == "AssignOp" and y.get("op", "").startswith("+") and
+                         "poly_modulus_degree" in names_of(y["rhs"], g) for y in walk(comp[0]["body"]))
+            if stride:
+                return True, "", ncmp
+            detail = "the component offset does not advance by poly_modulus_degree"
+    return False, detail, ncmp
+
+
 def run(facts, rep):
     R = "R-VALCHECK"
     rep.rule(R, "is_valid_for = data && buffer; data validity refuses first on metadata; Ciphertext validity reads every "
@@ -60,42 +143,13 @@ def run(facts, rep):
         else:
             rep.violation(R, key, "%s::is_data_valid_for no longer starts by refusing invalid metadata: the residue loops "
                           "index with unvalidated sizes" % ty, facts.loc(p))
-        # (loops)
-        tree = Tree(body)
-        defs = Defs(body)
-        cmps = []
-        for x in walk(body):
-            if x.get("k") == "If":
-                c = strip(x["c"])
-                if c.get("k") == "Bin" and c.get("op") == ">=" and any((callee(y) or {}).get("name") == "data_at" for y in walk(c["a"])) \
-                        and any(y.get("k") == "Ret" and strip(y.get("e") or {}).get("v") == "false" for y in walk(x["th"])):
-                    cmps.append(x)
+        # (loops) — the scan may live in the implementation itself or in a file-local helper it calls
         key = "%s/loops" % ty.rsplit("::", 1)[1]
-        want_depth = 3 if ty in ("text::Ciphertext", "key::PublicKey") else 2
-        good = False
-        detail = ""
-        for x in cmps:
-            fors = [a for a in tree.ancestors(x) if a.get("k") == "For"]
-            bounds = []
-            for f in fors:
-                nm = {y.get("name") for y in defs.closure(f["iter"]) if y.get("k") in ("Path", "MCall")}
-                bounds.append(nm)
-            has_n = any("poly_modulus_degree" in b_ for b_ in bounds)
-            has_k = any("coeff_modulus_size" in b_ or "coeff_modulus" in b_ for b_ in bounds)
-            has_s = any("size" in b_ for b_ in bounds)
-            modulus_from_j = any(y.get("k") == "Index" for y in defs.closure(strip(x["c"])["b"]))
-            if len(fors) >= want_depth and has_n and has_k and (want_depth == 2 or has_s) and modulus_from_j:
-                # stride: offset += poly_modulus_degree in the component loop
-                comp = [f for f, b_ in zip(fors, bounds) if "coeff_modulus_size" in b_ or "coeff_modulus" in b_]
-                stride = any(y.get("k") == "AssignOp" and y.get("op", "").startswith("+") and
-                             (local_of(y["rhs"]) or (0, ""))[1] == "poly_modulus_degree" for y in walk(comp[0]["body"])) if comp else False
-                if stride:
-                    good = True
-                else:
-                    detail = "the component offset does not advance by poly_modulus_degree"
+        want_size = ty in ("text::Ciphertext", "key::PublicKey")
+        good, detail, ncmp = _scan_ok(facts, p, want_size)
         if good:
-            rep.ok(R, key, "every residue is compared with its modulus (loop nest depth %d, stride = N)" % want_depth,
-                   facts.loc(p), sample={"type": ty, "comparisons": len(cmps)})
+            rep.ok(R, key, "every residue is compared with its modulus (polynomials x components x coefficients, stride = N)",
+                   facts.loc(p), sample={"type": ty, "comparisons": ncmp})
         else:
             rep.violation(R, key, "%s::is_data_valid_for does not compare every residue with its modulus over the full "
                           "(polynomials x) components x coefficients nest%s: an out-of-range residue can pass validation" %
